@@ -90,6 +90,13 @@ class shim_int(metaclass=_IntMeta):
     pass
 
 
+def shim_range(*args):
+    """range() reads the raw value of an int subclass without calling __index__: a symbolic bound would silently become 0."""
+    if any(isinstance(a, SymInt) for a in args):
+        raise symx.ProxyLeak("symbolic integer used as a range() bound")
+    return builtins.range(*args)
+
+
 class MathShim(types.ModuleType):
     """Stands for the `math` module inside a repository module."""
 
@@ -97,12 +104,23 @@ class MathShim(types.ModuleType):
         super().__init__("math")
         for k in dir(_math):
             if not k.startswith("__"):
-                setattr(self, k, getattr(_math, k))
+                v = getattr(_math, k)
+                setattr(self, k, self._guard(k, v) if callable(v) else v)
         self.sqrt = self._sqrt
         self.acos = self._acos
         self.sin = self._sin
         self.cos = self._cos
         self.fabs = lambda x: abs(x) if is_sym(x) else _math.fabs(x)
+
+    @staticmethod
+    def _guard(name, fn):
+        """any other math function would silently compute with the proxy's raw value (nan / 0): make it a checker error"""
+        def guarded(*args, **kw):
+            if any(isinstance(a, (SymReal, SymInt)) for a in args):
+                raise symx.ProxyLeak(f"math.{name} applied to a symbolic value (not modelled)")
+            return fn(*args, **kw)
+        guarded.__name__ = name
+        return guarded
 
     @staticmethod
     def _sqrt(x):
@@ -134,9 +152,9 @@ MATH = MathShim()
 _installed = {}
 
 
-def install(module, names=("max", "min", "float", "int", "math")):
+def install(module, names=("max", "min", "float", "int", "math", "range")):
     """Inject the shims into a repository module's globals (only names the module could see anyway)."""
-    table = {"max": shim_max, "min": shim_min, "float": shim_float, "int": shim_int, "math": MATH}
+    table = {"max": shim_max, "min": shim_min, "float": shim_float, "int": shim_int, "math": MATH, "range": shim_range}
     done = []
     for n in names:
         if n == "math" and "math" not in module.__dict__:
